@@ -6,7 +6,7 @@ xm_c10: template conflict resolution.  One request per line, one reply per line.
   reset
   sheet <path> <wrapperless 0|1>                 path = "-" (root module) or dot-separated import indices (document order);
                                                  parents before children, siblings in document order
-  tmpl <path> <id> <mode> <prio|-> <pat> <applyImports 0|1> <nalts> {<last> <name|-> <shape 0 simple|1 multi-step|2 boolean predicate|3 positional predicate>}*
+  tmpl <path> <id> <mode> <prio|-> <pat> <applyImports 0|1 | c<named id> | 1c<named id>> <nalts> {<last> <name|-> <shape 0 simple|1 multi-step|2 boolean predicate|3 positional predicate>}*
                                                  in document order of the module (xsl:include expanded)
        last ∈ fn root comment text node pi pilit ne na we wa nwe nwa
   node <id> <kind> <lname|-> <text|-> <kids…>    kind ∈ el at ns tx co pi rt ot ; ids are 0,1,2… in order
@@ -97,23 +97,25 @@ def query (st : St) (n mode : Nat) : String :=
   let root := mkSrc st 8 []
   let info := fun (k : Nat) => st.nodes.getD k default
   let subOf := fun (t : Tmpl) => (root.sub (sheetOf st t)).getD root
+  let named := fun (id : Nat) => (st.tmpls.find? (·.2.id = id)).map (·.2)
+  let implKeeps := !XalanModel.Generated.C10.callTemplateChangesCurrentRule
   let impl := fun (quiet : Bool) =>
     processWith st.nodes
       (fun k m => implFind (amImpl st k) (info k).kind (info k).lname m quiet root)
       (fun cur k m => implApplyImports (amImpl st k) (info k).kind (info k).lname m quiet (subOf cur))
-      10000 n mode none
+      named implKeeps 10000 n mode none
   let spec :=
     processWith st.nodes
       (fun k m => specWinner (amOf st k) m root)
       (fun cur k m => specApplyImports (amOf st k) m (subOf cur))
-      10000 n mode none
+      named true 10000 n mode none
   let warns :=
     warnsWith st.nodes
       (fun k m => implFind (amImpl st k) (info k).kind (info k).lname m false root)
       (fun cur k m => implApplyImports (amImpl st k) (info k).kind (info k).lname m false (subOf cur))
       (fun k m => root.build.warn (amImpl st k) (info k).kind (info k).lname m false)
       (fun cur k m => (subOf cur).build.warn (amImpl st k) (info k).kind (info k).lname m true)
-      10000 n mode none
+      named implKeeps 10000 n mode none
   s!"q={showToks (impl true)} r={showToks (impl false)} s={showToks spec} w={warns}"
 
 def showPseudo : Pseudo → String
@@ -132,13 +134,16 @@ def step (st : St) : List String → St × String
     | some p, some w => ({ st with sheets := st.sheets ++ [(p, w != 0)] }, "ok")
     | _, _ => (st, "bad")
   | "tmpl" :: p :: id :: mode :: prio :: pat :: ai :: na :: rest =>
-    match parsePath p, id.toNat?, mode.toNat?, pat.toNat?, ai.toNat?, na.toNat? with
+    let aiParts := ai.splitOn "c"
+    let aiFlag := (aiParts.headD "0")
+    let callId := ((aiParts.drop 1).headD "0").toNat?.getD 0
+    match parsePath p, id.toNat?, mode.toNat?, pat.toNat?, (if aiFlag = "" then some 0 else aiFlag.toNat?), na.toNat? with
     | some p, some id, some mode, some pat, some ai, some na =>
       let pr : Option (Option Int) := if prio = "-" then some none else (prio.toInt?).map some
       match pr, parseAlts na rest with
       | some pr, some alts =>
         ({ st with tmpls := st.tmpls ++ [(p, { id := id, mode := mode, prio := pr, pat := pat, alts := alts,
-                                               applyImports := ai != 0 })] }, "ok")
+                                               applyImports := ai != 0, call := callId })] }, "ok")
       | _, _ => (st, "bad")
     | _, _, _, _, _, _ => (st, "bad")
   | "node" :: id :: k :: ln :: tx :: kids =>
